@@ -14,6 +14,55 @@ use crate::{
     props::Check,
 };
 
+/// Arrays with a zero-length axis hold no element: every index is out of range, every in-range
+/// (axis, position) view is empty, sums are zeros of the reduced shape -- and nothing panics.
+fn eval_empty_shape(_ctx: &Ctx, case: &ShapeCase) -> Verdict {
+    let shape = &case.shape;
+    let d = shape.len();
+    let array = g(&format!("Array::new(vec![], {shape:?})"), || Array::new(Vec::<f64>::new(), shape.to_vec()))?.map_err(|e| Failure::new(format!("Array::new(vec![], {shape:?}) failed: {e}")))?;
+    let mut it = array.iter_indices();
+    ensure!(g("IndicesIter::len", || it.len())? == 0, "shape {shape:?}: iter_indices().len() != 0");
+    ensure!(g("IndicesIter::next", || it.next())?.is_none(), "shape {shape:?}: iter_indices yields an index");
+    for idx in [vec![0usize; d], shape.iter().map(|l| l.saturating_sub(1)).collect::<Vec<_>>()] {
+        let got = g(&format!("get({idx:?}) on shape {shape:?}"), || array.get(&idx).copied())?;
+        ensure!(got.is_none(), "shape {shape:?}: get({idx:?}) = {got:?} on an array without elements");
+    }
+    for a in 0..d {
+        for pos in 0..shape[a] + 2 {
+            let what = format!("get_axis(Axis({a}), {pos}) on the empty shape {shape:?}");
+            let view_len = g(&what, || array.get_axis(Axis(a), pos).map(|v| v.iter().count()))?;
+            if pos < shape[a] {
+                ensure!(view_len == Some(0), "{what}: expected an empty view, got {view_len:?}");
+            } else {
+                ensure!(view_len.is_none(), "{what}: position out of range, expected None, got a view of {view_len:?} items");
+            }
+        }
+        let what = format!("iter_axis(Axis({a})) on the empty shape {shape:?}");
+        let mut it = g(&what, || array.iter_axis(Axis(a)))?;
+        let mut yielded = 0usize;
+        loop {
+            let len = g(&format!("{what}: len()"), || it.len())?;
+            ensure!(len == shape[a] - yielded, "{what}: len() = {len} after {yielded} of {} views", shape[a]);
+            match g(&format!("{what}: next()"), || it.next().map(|v| v.iter().count()))? {
+                Some(items) => {
+                    ensure!(items == 0, "{what}: view {yielded} has {items} items");
+                    yielded += 1;
+                    ensure!(yielded <= shape[a], "{what}: more views than the axis is long");
+                }
+                None => break,
+            }
+        }
+        ensure!(yielded == shape[a], "{what}: {yielded} views, the axis has length {}", shape[a]);
+        let got = g(&format!("sum(Axis({a})) on the empty shape {shape:?}"), || array.sum(Axis(a)))?;
+        let want_shape: Vec<usize> = shape.iter().enumerate().filter(|(i, _)| *i != a).map(|(_, &l)| l).collect();
+        if d > 1 {
+            ensure!(got.shape().as_ref() == want_shape.as_slice(), "sum(Axis({a})) of the empty shape {shape:?} has shape {:?}", got.shape());
+            ensure!(got.as_slice().iter().all(|v| *v == 0.0), "sum(Axis({a})) of the empty shape {shape:?} = {:?}", got.as_slice());
+        }
+    }
+    Ok(Pass::new().nontrivial(d >= 2).label(format!("axes={d}")))
+}
+
 #[derive(Clone, Debug, Serialize, Deserialize)]
 pub struct ShapeCase {
     pub shape: Vec<usize>,
@@ -107,6 +156,19 @@ fn eval_shape(_ctx: &Ctx, case: &ShapeCase) -> Verdict {
         for pos in [0usize, 1, usize::MAX] {
             let got = g(&format!("get_axis(Axis({axis}), {pos}) on shape {shape:?}"), || array.get_axis(Axis(axis), pos).is_some())?;
             ensure!(!got, "shape {shape:?}: get_axis(Axis({axis}), {pos}) returned a view, expected None");
+        }
+    }
+    // --- iter_axis on an axis that does not exist: an iterator that yields nothing and says so
+    for axis in [d, d + 1, usize::MAX] {
+        let what = format!("iter_axis(Axis({axis})) on shape {shape:?}");
+        let mut it = g(&what, || array.iter_axis(Axis(axis)))?;
+        for call in 0..3 {
+            let len = g(&format!("{what}: len()"), || it.len())?;
+            ensure!(len == 0, "{what}: len() = {len} on call {call}, but the iterator yields nothing");
+            let hint = g(&format!("{what}: size_hint()"), || it.size_hint())?;
+            ensure!(hint == (0, Some(0)), "{what}: size_hint() = {hint:?}, expected (0, Some(0))");
+            let got = g(&format!("{what}: next()"), || it.next().is_some())?;
+            ensure!(!got, "{what}: yields a view on call {call}");
         }
     }
     for a in 0..d {
@@ -446,6 +508,43 @@ pub fn check(ctx: &Ctx) -> Check {
                 v
             }),
             eval: Box::new(eval_shape),
+        }),
+        Box::new(EnumPart {
+            name: "empty-shapes",
+            rule: "every shape with 1..4 axes of lengths 0..3 that has a zero-length axis (arrays without elements, as `Array::new(vec![], shape)` accepts them): no index exists, every in-range (axis, position) view is empty, iter_axis yields as many empty views as the axis is long with a correct len(), sums are zeros of the reduced shape; nothing panics",
+            exhaustive: true,
+            cases: Box::new(|_| {
+                let mut v = Vec::new();
+                for d in 1..=4usize {
+                    let mut shape = vec![0usize; d];
+                    loop {
+                        if shape.contains(&0) {
+                            v.push(ShapeCase { shape: shape.clone() });
+                        }
+                        let mut k = d;
+                        loop {
+                            if k == 0 {
+                                break;
+                            }
+                            k -= 1;
+                            shape[k] += 1;
+                            if shape[k] <= 3 {
+                                break;
+                            }
+                            shape[k] = 0;
+                            if k == 0 {
+                                k = usize::MAX;
+                                break;
+                            }
+                        }
+                        if k == usize::MAX {
+                            break;
+                        }
+                    }
+                }
+                v
+            }),
+            eval: Box::new(eval_empty_shape),
         }),
         Box::new(EnumPart {
             name: "large-shapes",
